@@ -25,25 +25,48 @@ def _r(x):
     return repr(x)
 
 
+_serial = [0]
+
+
+def _lk(x):
+    """Lookup key of the intern table.  It must never make the dict call `Sym.__eq__` (an operator that builds a term - on a
+    hash collision that re-entered the table lock: a deadlock found by a thorough run) nor identify 1 with True or 1.0: terms are
+    replaced by their serial number, numbers carry their type."""
+    if isinstance(x, Sym):
+        return ("\0sym", x.i)
+    if isinstance(x, tuple):
+        return tuple(_lk(y) for y in x)
+    if isinstance(x, (bool, int, float, complex)):
+        return ("\0num", type(x).__name__, x)
+    return x
+
+
+def _intern(cls, k):
+    lk = _lk(k)
+    with _L:
+        s = _T.get(lk)
+        if s is None:
+            s = object.__new__(cls)
+            s.k = k
+            s.h = zlib.crc32(repr(k).encode())
+            _serial[0] += 1
+            s.i = _serial[0]
+            _T[lk] = s
+        return s
+
+
 class Sym:
-    __slots__ = ("k", "h")
+    __slots__ = ("k", "h", "i")
 
     def __new__(cls, *k):
-        k = tuple(_freeze(y) for y in k)
-        with _L:
-            s = _T.get(k)
-            if s is None:
-                s = object.__new__(cls)
-                s.k = k
-                s.h = zlib.crc32(repr(k).encode())
-                _T[k] = s
-            return s
+        return _intern(cls, tuple(_freeze(y) for y in k))
 
     def __repr__(self):
         return "%s(%s)" % (self.k[0], ", ".join(_r(x) for x in self.k[1:]))
 
     def __hash__(self):
-        return self.h
+        # the serial number: two different terms never have the same hash, so sets / dicts never fall back to `==`
+        return self.i
 
     def __bool__(self):
         if OP_FAULT[0] is not None:
@@ -70,14 +93,7 @@ class Sym:
 
 def _rebuild(key):
     """Unpickle by re-interning on the frozen key (identity comparison survives a round trip)."""
-    with _L:
-        s = _T.get(key)
-        if s is None:
-            s = object.__new__(Sym)
-            s.k = key
-            s.h = zlib.crc32(repr(key).encode())
-            _T[key] = s
-        return s
+    return _intern(Sym, key)
 
 
 class Opaque:
